@@ -39,6 +39,7 @@ theorem next_eq (s : MeanAbsoluteDeviation F) (x v : F) (h : WF s) (hv : s.deque
   rw [Array.getElem?_eq_getElem hix] at hv
   have hv := Option.some.inj hv
   unfold next madOut
+  try simp only [gen_helper]
   rs_exec
   all_goals try omega
   all_goals
@@ -56,6 +57,7 @@ theorem next_total (s : MeanAbsoluteDeviation F) (x : F) (h : WF s) :
 
 theorem nextBar_eq (s : MeanAbsoluteDeviation F) (b : Bar F) : s.nextBar b = s.next b.close := by
   unfold nextBar
+  try simp only [gen_helper]
   cases h : s.next b.close <;> simp
 
 end TaRs.Gen.MeanAbsoluteDeviation
